@@ -1,5 +1,5 @@
 SPECIFICATION SpecM
-CONSTANTS MaxNodes = 4 Kinds <- KindsQ Pos <- PosQ3 Keys <- KeysQ
+CONSTANTS MaxNodes = 5 Kinds <- KindsQ Pos <- PosQ3 Keys <- KeysQ
 VIEW ShapeView
 INVARIANTS TypeOK WellFormed OnceInForest Refines QueryInv
 PROPERTIES QueryAgree CloneIso ReleaseOnce
